@@ -73,7 +73,7 @@ func init() {
 
 func genCases(seed int64, tier string) []core.Case {
 	rng := rand.New(rand.NewSource(seed*15485863 + 5))
-	nDet, perDet, repeats, envs := 32, 12, 5, 3
+	nDet, perDet, repeats, envs := 32, 10, 5, 3
 	nConc, perConc := 16, 3
 	nProbe := 1
 	nStrace := 20
